@@ -365,8 +365,8 @@ def from_timespec_year (unix_time : Int) : P Int :=
     let year := if (month : Int) ≥ MONTHS_PER_YEAR then year0 + 1 else year0
     if inI32 year then .ok year else .err
 
-/-- `AlternateTime::find_local_time_type(unix_time)` -/
-def Alt.find_local_time_type (a : Alt) (unix_time : Int) : P Ltt :=
+/-- `AlternateTime::find_ltt_for_validate(unix_time)` -/
+def Alt.find_ltt_for_validate (a : Alt) (unix_time : Int) : P Ltt :=
   let dst_start_time_in_utc := a.dstStartTime - a.std.off
   let dst_end_time_in_utc := a.dstEndTime - a.dst.off
   from_timespec_year unix_time >>= fun current_year =>
@@ -408,10 +408,10 @@ def Alt.find_local_time_type (a : Alt) (unix_time : Int) : P Ltt :=
         else .ok true
   is_dst >>= fun b => .ok (if b then a.dst else a.std)
 
-/-- `TransitionRule::find_local_time_type(unix_time)` -/
-def Rule.find_local_time_type (r : Rule) (unix_time : Int) : P Ltt :=
+/-- `TransitionRule::find_ltt_for_validate(unix_time)` -/
+def Rule.find_ltt_for_validate (r : Rule) (unix_time : Int) : P Ltt :=
   match r with
   | .fixed t => .ok t
-  | .alt a => a.find_local_time_type unix_time
+  | .alt a => a.find_ltt_for_validate unix_time
 
 end Chrono.M.Tz
